@@ -1,4 +1,5 @@
 import PytaskProofs.Lemmas.Sorter
+import PytaskProofs.Lemmas.Graph
 /-!
 # C19 — try_first / try_last priorities are honoured among ready tasks
 
@@ -8,6 +9,7 @@ enumeration, every `n`, every sorter state.
 -/
 namespace Pytask
 namespace Sorter
+open Pytask.G
 
 /-- **C19_batch.** Whatever order the ready set is iterated in, the batch handed out consists of
 ready tasks only, has the requested size (or everything that is ready), nothing left behind
@@ -229,6 +231,37 @@ example : Ranked exS id := by
   intro a x he
   have : (a, x) = (1, 4) := by simpa [exS] using he
   cases this; exact ⟨by decide, by decide⟩
+
+
+/-- `from_dag` of a well-formed acyclic graph (it rejects cyclic ones) starts in a `Ranked` state: the rank
+function of `C09_hasCycle_false_iff_hasRank` orders every task-ancestor edge. -/
+theorem C19_fromDag_ranked {full : G} {isTask : Nat → Bool} {prio : Nat → Int} {f : Sorter}
+    (h : fromDag full isTask prio = .ok f) (wf : WF full) : ∃ rank, Ranked f rank := by
+  have hc : full.hasCycle = false := by
+    unfold fromDag at h
+    split at h
+    · cases h
+    · rename_i hc; simpa using hc
+  obtain ⟨r, hr⟩ := (hasCycle_false_iff_hasRank wf).1 hc
+  refine ⟨r, ?_⟩
+  intro a x he
+  have hm := (fromDag_edges h a x).1 he
+  have hreach := (mem_anc_iff.1 hm.2.2.1).1
+  refine ⟨?_, hreach.rank_lt hr⟩
+  rw [fromDag_nodes h]
+  refine List.mem_filter.2 ⟨?_, hm.2.2.2⟩
+  cases hreach with
+  | edge h => exact (wf _ h).1
+  | step h _ => exact (wf _ h).1
+
+/-- **C19_build_never_stalls.** From `from_dag` on, over every run of batches and completions: while tasks are
+left and none is in flight, `get_ready(n)` hands out a task — for all priorities and set orders. -/
+theorem C19_build_never_stalls {full : G} {isTask : Nat → Bool} {prio : Nat → Int} {f s' : Sorter}
+    {hh : List Nat} (h : fromDag full isTask prio = .ok f) (wf : G.WF full) (hr : Run f s' hh)
+    (hne : s'.nodes ≠ []) (hidle : s'.processing = []) (enum : List Nat) (hp : enum.Perm s'.avail)
+    (n : Nat) (hpos : 0 < n) : s'.readyWith enum n ≠ [] := by
+  obtain ⟨rank, hrk⟩ := C19_fromDag_ranked h wf
+  exact C19_run_never_stalls hr hrk hne hidle enum hp n hpos
 
 end Sorter
 end Pytask
